@@ -6,7 +6,8 @@
    Python values, receive loop).  Error values map to documented exception classes through Gen/ErrorMap.v,
    regenerated from src/error.rs on every run (C01_error_classes). *)
 From GS Require Import Model.Base Model.Ber Model.Pdu Model.OidText Model.Exc Gen.ErrorMap
-  Proofs.HeaderProofs Proofs.DecodeProofs Proofs.MsgDecodeProofs Proofs.OidTextProofs Proofs.ErrorMapProofs.
+  Proofs.HeaderProofs Proofs.DecodeProofs Proofs.MsgDecodeProofs Proofs.OidTextProofs Proofs.ErrorMapProofs
+  Model.Ops Model.Walk Proofs.OpsLemmas Proofs.OpsProofs Proofs.WalkAnyAgent.
 
 Theorem C01_header_total :
   forall i : bytes, parse_header i <> Panic.
@@ -114,3 +115,47 @@ Check C01_error_classes :
   (In e [Incomplete; UnexpectedTag; InvalidTagFormat; UnknownPdu; InvalidPdu; InvalidData; UnsupportedTag; TrailingData;
          InvalidVersion; UnknownSecurityModel] -> err_to_exc e = EDecode).
 Print Assumptions C01_error_classes.
+
+(* conversions to Python values, the community receive loop and the walk iterators never surface a panic *)
+Theorem C01_get_no_crash :
+  forall p : pdu, get_to_python p <> Crash.
+Proof. exact get_to_python_no_crash. Qed.
+
+Theorem C01_getmany_no_crash :
+  forall p : pdu, getmany_to_python p <> Crash.
+Proof. exact getmany_to_python_no_crash. Qed.
+
+Theorem C01_getnext_no_crash :
+  forall (p : pdu) (it : getiter), snd (getnext_to_python p it) <> Crash.
+Proof. exact getnext_to_python_no_crash. Qed.
+
+Theorem C01_getbulk_no_crash :
+  forall (p : pdu) (it : getiter), snd (getbulk_to_python p it) <> Crash.
+Proof. exact getbulk_to_python_no_crash. Qed.
+
+Theorem C01_recv_loop_no_crash :
+  forall (ver : Z) (comm : bytes) (rid : Z) (ds : list bytes), (forall d : bytes, In d ds -> cmsg_decode ver d <> Panic) -> c_recv_loop ver comm rid ds <> Crashed.
+Proof. exact c_recv_loop_no_crash. Qed.
+
+Theorem C01_walk_no_crash :
+  forall (fuel : nat) (a : agent) (it0 : getiter) (base : bytes), fresh_iter it0 base -> ended (walk_next fuel a 0 it0 [] []) <> CrashedW /\ ended (walk_bulk fuel a 0 it0 [] []) <> CrashedW.
+Proof. exact walk_no_crash. Qed.
+
+Check C01_get_no_crash :
+  forall p : pdu, get_to_python p <> Crash.
+Check C01_getmany_no_crash :
+  forall p : pdu, getmany_to_python p <> Crash.
+Check C01_getnext_no_crash :
+  forall (p : pdu) (it : getiter), snd (getnext_to_python p it) <> Crash.
+Check C01_getbulk_no_crash :
+  forall (p : pdu) (it : getiter), snd (getbulk_to_python p it) <> Crash.
+Check C01_recv_loop_no_crash :
+  forall (ver : Z) (comm : bytes) (rid : Z) (ds : list bytes), (forall d : bytes, In d ds -> cmsg_decode ver d <> Panic) -> c_recv_loop ver comm rid ds <> Crashed.
+Check C01_walk_no_crash :
+  forall (fuel : nat) (a : agent) (it0 : getiter) (base : bytes), fresh_iter it0 base -> ended (walk_next fuel a 0 it0 [] []) <> CrashedW /\ ended (walk_bulk fuel a 0 it0 [] []) <> CrashedW.
+Print Assumptions C01_get_no_crash.
+Print Assumptions C01_getmany_no_crash.
+Print Assumptions C01_getnext_no_crash.
+Print Assumptions C01_getbulk_no_crash.
+Print Assumptions C01_recv_loop_no_crash.
+Print Assumptions C01_walk_no_crash.
